@@ -104,7 +104,7 @@ func c15Read(w *World) c15State {
 	initAddrs()
 	ctx := w.Ctx()
 	k := w.node().app.StorageKeeper
-	s := c15State{bal: w.Balances(), recs: map[string]int64{}, provs: map[string]bool{}, price: k.GetParams(ctx).CollateralPrice}
+	s := c15State{bal: w.Balances(), recs: map[string]int64{}, provs: map[string]bool{}, price: w.storageParams().CollateralPrice}
 	for _, c := range k.GetAllCollateral(ctx) {
 		s.recs[c.Address] = c.Amount
 	}
